@@ -390,6 +390,8 @@ def balls_move_with_the_shape(chk, sh, dim, size, desc):
     if st0 != "ok":
         return
     before = read()
+    # (recorded finding miniball-randomised-solver: the occasional odd answer can also be the one read BEFORE the move - two more reads)
+    before_more = [read() for _ in range(2)] if any(n.startswith("minimal_bounding") for n in names) else []
     t = np.array([2.5, -1.25, 0.75]) * max(size, 2.0 ** -40)
     st, _ = C.excname(setattr, sh, "centroid", c0 + t)
     if st != "ok":
@@ -407,10 +409,15 @@ def balls_move_with_the_shape(chk, sh, dim, size, desc):
         ok = np.linalg.norm(vb[0] - va[0] - disp) <= 1e-6 * (size + np.linalg.norm(c0) + np.linalg.norm(disp)) and abs(vb[1] - va[1]) <= 1e-6 * size
         if not ok and n.startswith("minimal_bounding"):
             # (recorded finding miniball-randomised-solver: judged on re-evaluation)
+            cands = [va] + [m[n][1] for m in before_more if m[n][0] == "ok"]
+            afters = [vb]
             for _ in range(3):
                 st2, b2 = C.excname(lambda: getattr(sh, n))
-                if st2 == "ok" and np.linalg.norm(np.array(b2.center, float) - va[0] - disp) <= 1e-6 * (size + np.linalg.norm(c0) + np.linalg.norm(disp)) and abs(float(b2.radius) - va[1]) <= 1e-6 * size:
-                    ok = True; chk.count("known:miniball(re-evaluation agrees)"); break
+                if st2 == "ok":
+                    afters.append((np.array(b2.center, float), float(b2.radius)))
+            if any(np.linalg.norm(y[0] - x[0] - disp) <= 1e-6 * (size + np.linalg.norm(c0) + np.linalg.norm(disp)) and abs(y[1] - x[1]) <= 1e-6 * size
+                   for x in cands for y in afters):
+                ok = True; chk.count("known:miniball(re-evaluation agrees)")
         if not ok:
             chk.violation(n + "-after-move", dict(desc, centre_before=va[0].tolist(), radius_before=va[1], centre_after=vb[0].tolist(), radius_after=vb[1],
                                                   displacement=disp.tolist(), what="the ball did not move with the shape"))
